@@ -4,3 +4,7 @@ import NTV.Proofs.C10
 #print axioms NTV.C10.result_shape_partial
 #print axioms NTV.C10.is_gcd_partial
 #print axioms NTV.C10.gcd_unique
+#print axioms NTV.C10.gcd_total
+#print axioms NTV.C10.gcd_flag
+#print axioms NTV.C10.result_shape
+#print axioms NTV.C10.is_gcd
